@@ -190,6 +190,20 @@ func runCheckFinality(ctx *action.Context, tx action.RawTx) (bool, action.Respon
 			}
 			return true, action.Response{Log: "Redeem Tracker Failed"}
 		}
+		if tracker.Type == trackerlib.ProcessTypeLockERC {
+			err := failedLock(ctx, tracker, *f)
+			if err != nil {
+				return false, action.Response{Log: errors.Wrap(err, "unable to finalize lock TX").Error()}
+			}
+			return true, action.Response{Log: "Lock ERC Tracker Failed"}
+		}
+		if tracker.Type == trackerlib.ProcessTypeRedeemERC {
+			err := refundERC20Tokens(ctx, tracker, *f)
+			if err != nil {
+				return false, action.Response{Log: errors.Wrap(err, "unable to refund tokens").Error()}
+			}
+			return true, action.Response{Log: "Redeem ERC Tracker Failed"}
+		}
 		return true, action.Response{Log: "Tracker has enough votes to be Failed , Tracker Type Unknown"}
 	}
 
@@ -255,6 +269,42 @@ func refundTokens(ctx *action.Context, tracker *trackerlib.Tracker, oltTx Report
 	err = ctx.Balances.AddToAddress(ethSupply, oEthRefundCoin)
 	if err != nil {
 		return errors.New("Unable to update total Eth supply")
+	}
+	return nil
+}
+
+// Refund the tokens debited by an ERC20 redeem that the witnesses reported as failed
+func refundERC20Tokens(ctx *action.Context, tracker *trackerlib.Tracker, oltTx ReportFinality) error {
+	ctx.Logger.Info("Failing Tracker  [ Token Refund ]| Process Type : ", tracker.Type.String())
+	ethOpt, err := ctx.GovernanceStore.GetETHChainDriverOption()
+	if err != nil {
+		return gov.ErrGetEthOptions
+	}
+	redeemParams, err := ethereum.ParseERC20RedeemParams(tracker.SignedETHTx, ethOpt.ERCContractABI)
+	if err != nil {
+		return errors.Wrap(action.ErrInvalidExtTx, err.Error())
+	}
+	token, err := ethereum.ParseERC20RedeemToken(tracker.SignedETHTx, ethOpt.TokenList, ethOpt.ERCContractABI)
+	if err != nil {
+		return errors.Wrap(action.ErrInvalidExtTx, err.Error())
+	}
+	c, ok := ctx.Currencies.GetCurrencyByName(token.TokName)
+	if !ok {
+		return errors.New("Token not registered")
+	}
+	refund := c.NewCoinFromAmount(*balance.NewAmountFromBigInt(redeemParams.Amount))
+	tracker.State = trackerlib.Failed
+	err = ctx.ETHTrackers.WithPrefixType(trackerlib.PrefixOngoing).Set(tracker)
+	if err != nil {
+		return errors.Wrap(err, "unable to Fail tracker")
+	}
+	err = ctx.Balances.AddToAddress(tracker.ProcessOwner, refund)
+	if err != nil {
+		return errors.New("Unable to refund tokens")
+	}
+	err = ctx.Balances.AddToAddress(keys.Address(ethOpt.TotalSupplyAddr), refund)
+	if err != nil {
+		return errors.New("Unable to update total token supply")
 	}
 	return nil
 }
